@@ -106,6 +106,13 @@ gen_case(const std::string &prop, bool big)
   const bool large_exact = prop == "C19" && c.cls == 0 && chance(3);
   if (large_exact) c.n = pick64(65000, 70000);
   c.alpha = gen_alpha(prop == "C18" && c.cls == 1 && chance(80));
+  if (prop == "C18" && pick(0, big ? 499 : 999) == 0) {
+    // integral skews together with bin counts next to a power of two, up to 2^22 (fast paths for integer exponents,
+    // products of ranks that leave 64 or 32 bits). Rare: the reference CDF is O(n) in long double.
+    c.alpha = static_cast<double>(pick(0, 4));
+    const int k = chance(50) ? 22 : pick(10, 21);
+    c.n = (1ULL << k) + static_cast<uint64_t>(pick(0, 4)) - 2;
+  }
   switch (c.type) {
     case 0: gen_min<uint32_t>(c); break;
     case 1: gen_min<uint64_t>(c); break;
